@@ -24,7 +24,12 @@ prop("C17",
                       # every byte truncation (~35000 points, depends on the length of the scratch path in the multi-header) in
                       # the release build, every 5th byte (phase = seed mod 5) under the sanitizers
                       dict(flavour="rel", mode="truncate", cases=40000, env={"VERIF_C17_TRUNC": "byte"}),
-                      dict(flavour="asan", mode="truncate", cases=8200, env={"VERIF_C17_TRUNC": "byte", "VERIF_C17_TRUNC_STRIDE": "5"})],
+                      dict(flavour="asan", mode="truncate", cases=8200, env={"VERIF_C17_TRUNC": "byte", "VERIF_C17_TRUNC_STRIDE": "5"}),
+                      # coverage-guided stage: libFuzzer (generator only) from the committed corpus, then every new corpus input and
+                      # every crash/oom/timeout artifact is judged by the isolated-child oracle in both builds
+                      dict(flavour="asan", mode="corpus", pre="libfuzzer", cases=1000000, fuzz_runs=400000, fuzz_jobs=12,
+                           fuzz_max_seconds=1500),
+                      dict(flavour="rel", mode="corpus", pre="reuse_fuzz", cases=1000000)],
      },
      min_nontrivial={"quick": 14000, "thorough": 55000},
      min_obs={"quick": {"mutated_inputs": 28000, "inputs_accepted_and_consistent": 12000, "inputs_rejected": 9000,
